@@ -1,6 +1,6 @@
 /-
   Helper lemmas for Proofs/C11: `modAt`, `findName`, `findFn`, the restore loop, the catch blocks on the flag column,
-  the invariants `Inv` (symbols, flags, exec depth) and `FInv` (function table) of the event machine and their preservation.
+  the invariants `Inv` (symbols, flags, exec depth) and `JInv` (function table and journal) of the event machine and their preservation.
 -/
 import BlocV.Model.ParseCtx
 
@@ -378,8 +378,8 @@ theorem inv_init (H : Decl → Nat) (c0 : Ctx) (hidle : c0.idle = true) (hcoh : 
   · simp [St.init, parsingBegin]
 
 theorem inv_register {H : Decl → Nat} {c0 : Ctx} {st : St} {c' : Ctx} {n : String} {r : RegTy}
-    (hinv : Inv H c0 st) (h : registerSymbol H st.ctx n r = .ok c') (ch : Option Child) :
-    Inv H c0 ⟨c', st.stack, ch⟩ := by
+    (hinv : Inv H c0 st) (h : registerSymbol H st.ctx n r = .ok c') (ch : Option Child) (m : Nat) (j : List (Nat × Fn)) :
+    Inv H c0 ⟨c', st.stack, ch, m, j⟩ := by
   rcases registerSymbol_cases h with h | h | ⟨i, cur, hcur, h⟩
   · subst h; exact ⟨hinv.len_n, hinv.len_t, hinv.len_f, hinv.names, hinv.types, hinv.flags, hinv.exec, hinv.coh, hinv.parsing⟩
   · subst h
@@ -425,8 +425,8 @@ theorem inv_enter {H : Decl → Nat} {c0 : Ctx} {st : St} {c' : Ctx} {fr : Frame
     (hinv : Inv H c0 st)
     (hu : fr.catchFls c'.fls = st.ctx.fls ∧ c'.exec = st.ctx.exec + 1 ∧ c'.names = st.ctx.names ∧ c'.tds = st.ctx.tds ∧
       c'.backed = st.ctx.backed ∧ c'.parsing = st.ctx.parsing ∧ c'.fns = st.ctx.fns ∧ c'.fbacked = st.ctx.fbacked)
-    (hlen : c'.fls.length = st.ctx.fls.length) (ch : Option Child) :
-    Inv H c0 ⟨c', fr :: st.stack, ch⟩ := by
+    (hlen : c'.fls.length = st.ctx.fls.length) (ch : Option Child) (m : Nat) (j : List (Nat × Fn)) :
+    Inv H c0 ⟨c', fr :: st.stack, ch, m, j⟩ := by
   obtain ⟨h1, h2, h3, h4, h5, h6, _, _⟩ := hu
   refine ⟨?_, ?_, ?_, ?_, ?_, ?_, ?_, ?_, ?_⟩
   · simp only [h3]; exact hinv.len_n
@@ -478,7 +478,7 @@ theorem inv_step {H : Decl → Nat} {c0 : Ctx} {st st' : St} {e : Ev}
       | ok c =>
         simp only [hreg] at hstep
         cases hstep
-        exact inv_register hinv hreg _
+        exact inv_register hinv hreg _ _ _
       | error err => simp only [hreg] at hstep; cases hstep
     | enterFor i =>
       simp only at hstep
@@ -489,7 +489,7 @@ theorem inv_step {H : Decl → Nat} {c0 : Ctx} {st st' : St} {e : Ev}
         simp only [h] at hstep
         cases hstep
         have hu := enterFor_undo h
-        exact inv_enter hinv hu (by rw [← hu.1, catchFls_length]) _
+        exact inv_enter hinv hu (by rw [← hu.1, catchFls_length]) _ _ _
     | enterForall v t =>
       simp only at hstep
       cases h : enterForall st.ctx v t with
@@ -499,11 +499,11 @@ theorem inv_step {H : Decl → Nat} {c0 : Ctx} {st st' : St} {e : Ev}
         simp only [h] at hstep
         cases hstep
         have hu := enterForall_undo h
-        exact inv_enter hinv hu (by rw [← hu.1, catchFls_length]) _
+        exact inv_enter hinv hu (by rw [← hu.1, catchFls_length]) _ _ _
     | enterBlk =>
       simp only at hstep
       cases hstep
-      exact inv_enter (fr := .blk) (c' := { st.ctx with exec := st.ctx.exec + 1 }) hinv ⟨rfl, rfl, rfl, rfl, rfl, rfl, rfl, rfl⟩ rfl _
+      exact inv_enter (fr := .blk) (c' := { st.ctx with exec := st.ctx.exec + 1 }) hinv ⟨rfl, rfl, rfl, rfl, rfl, rfl, rfl, rfl⟩ rfl _ _ _
     | leave =>
       simp only at hstep
       cases hs : st.stack with
@@ -536,9 +536,10 @@ theorem inv_run {H : Decl → Nat} {c0 : Ctx} {st : St} (evs : List Ev) (hinv : 
     | ok st' => simp only; exact ih (inv_step hinv hs)
     | error err => exact hinv
 
-/-- from the invariant to the Spec, through the catch blocks and the restore loop -/
+/-- from the invariant to the Spec, through the catch blocks, the journal (which touches the function table only) and the
+restore loop -/
 theorem preserved_of_inv {H : Decl → Nat} {c0 : Ctx} {st : St} (hidle : c0.idle = true) (hinv : Inv H c0 st) :
-    SymsPreserved c0 (parsingEnd H (unwind st)) := by
+    SymsPreserved c0 (rejectCtx H st) := by
   have hp : c0.parsing = false := by
     simp only [Ctx.idle, Bool.and_eq_true, Bool.not_eq_true'] at hidle; exact hidle.1
   have key : ∀ c1 : Ctx, c1.names = st.ctx.names → c1.tds = st.ctx.tds → c1.fls = st.ctx.fls → c1.backed = st.ctx.backed →
@@ -551,25 +552,13 @@ theorem preserved_of_inv {H : Decl → Nat} {c0 : Ctx} {st : St} (hidle : c0.idl
     · simp only [parsingEnd, unwindFrames_fls, h3]; rw [take_unwindFls]; exact hinv.flags
     · simp only [parsingEnd, unwindFrames_exec, h5]; have := hinv.exec; omega
     · simp only [parsingEnd]; exact hp.symm
-  unfold unwind
-  cases st.child with
-  | none => exact key _ rfl rfl rfl rfl rfl
-  | some ch => exact key _ (by simp [rollbackCtx]) (by simp [rollbackCtx]) (by simp [rollbackCtx]) (by simp [rollbackCtx]) (by simp [rollbackCtx])
+  have hun : SymsPreserved c0 (parsingEnd H (unwind st)) := by
+    unfold unwind
+    cases st.child with
+    | none => exact key _ rfl rfl rfl rfl rfl
+    | some ch => exact key _ (by simp [rollbackCtx]) (by simp [rollbackCtx]) (by simp [rollbackCtx]) (by simp [rollbackCtx]) (by simp [rollbackCtx])
+  exact ⟨hun.names, hun.types, hun.flags, hun.exec, hun.parsing, hun.backed⟩
 
-
-/-- function-table invariant for texts that do not COMPLETE a redefinition of a pre-existing function -/
-structure FInv (c0 : Ctx) (st : St) : Prop where
-  len : c0.fns.length ≤ st.ctx.fns.length
-  /-- no declaration open: the pre-existing entries are untouched -/
-  closed : st.child = none → st.ctx.fns.take c0.fns.length = c0.fns
-  /-- a declaration is open: either it is not a pre-existing one (then neither is a backed-up functor), or it is the
-  pre-existing entry `i`, whose functor is in `_backed` and is what `rollback` will find -/
-  opened : ∀ ch, st.child = some ch →
-    (findFn ch.name ch.arity c0.fns = none ∧ st.ctx.fns.take c0.fns.length = c0.fns ∧
-      (st.ctx.fbacked = none → c0.fns.length < st.ctx.fns.length) ∧
-      (∀ b, st.ctx.fbacked = some b → findFn b.name b.arity c0.fns = none)) ∨
-    (∃ i b, findFn ch.name ch.arity c0.fns = some i ∧ st.ctx.fbacked = some b ∧
-      (modAt (fun _ => b) i st.ctx.fns).take c0.fns.length = c0.fns ∧ findFn b.name b.arity st.ctx.fns = some i)
 
 theorem findFn_take_none {n : String} {a : Nat} {l : List Fn} {m : Nat} {i : Nat}
     (hpre : findFn n a (l.take m) = none) (hi : findFn n a l = some i) : m ≤ i := by
@@ -654,18 +643,90 @@ theorem modAt_modAt_const {α : Type} (a b : α) (i : Nat) (l : List α) :
   · subst hij; cases l[i]? <;> simp
   · simp [hij]
 
-theorem finv_step {H : Decl → Nat} {c0 : Ctx} {st st' : St} {e : Ev}
-    (hno : completesExisting c0 st e = false)
-    (hinv : FInv c0 st) (hstep : step H st e = .ok st') : FInv c0 st' := by
+theorem findFn_append (n : String) (a : Nat) (l1 l2 : List Fn) :
+    findFn n a (l1 ++ l2) = match findFn n a l1 with
+      | some i => some i
+      | none => (findFn n a l2).map (· + l1.length) := by
+  induction l1 with
+  | nil => simp [findFn]
+  | cons x xs ih =>
+    simp only [List.cons_append, findFn]
+    split
+    · rfl
+    · rw [ih]
+      cases findFn n a xs with
+      | some i => rfl
+      | none =>
+        cases findFn n a l2 with
+        | none => rfl
+        | some j => simp only [Option.map_some, List.length_cons]; rfl
+
+theorem modAt_eq_const {α : Type} (g : α → α) (i : Nat) (l : List α) (x : α) (h : l[i]? = some x) :
+    modAt g i l = modAt (fun _ => g x) i l := by
+  apply List.ext_getElem?
+  intro j
+  simp only [getElem?_modAt]
+  by_cases hij : i = j
+  · subst hij; simp [h]
+  · simp [hij]
+
+/-! ### the journal: `parsingRevert` gives back the function table of the start of the parse -/
+
+theorem revertFns_cons (mark i : Nat) (f : Fn) (j : List (Nat × Fn)) (fns : List Fn) :
+    revertFns mark ((i, f) :: j) fns =
+      j.foldl (fun acc p => if p.1 < mark then modAt (fun _ => p.2) p.1 acc else acc)
+        (if i < mark then modAt (fun _ => f) i (fns.take mark) else fns.take mark) := by
+  simp [revertFns, List.foldl]
+
+/-- the undo loop depends on the table only through its first `mark` entries -/
+theorem revertFns_congr (mark : Nat) (j : List (Nat × Fn)) {fns fns' : List Fn} (h : fns'.take mark = fns.take mark) :
+    revertFns mark j fns' = revertFns mark j fns := by
+  simp only [revertFns, h]
+
+/-- replacing entry `i` and journalling the functor it held is undone by the newest journal entry -/
+theorem revertFns_replace (mark i : Nat) (old f : Fn) (j : List (Nat × Fn)) (fns : List Fn) (hold : fns[i]? = some old) :
+    revertFns mark ((i, old) :: j) (modAt (fun _ => f) i fns) = revertFns mark j fns := by
+  rw [revertFns_cons]
+  unfold revertFns
+  congr 1
+  by_cases hi : i < mark
+  · simp only [hi, if_true]
+    rw [take_modAt, modAt_modAt_const]
+    apply modAt_id_of
+    intro x hx
+    have := getElem?_take_some hx
+    rw [hold] at this
+    cases this
+    rfl
+  · simp only [hi, if_false]
+    exact take_modAt_of_le _ _ _ _ (by omega)
+
+/-- What holds of the function table and the journal during the parse of any text started in `c0` (ANY context): undoing
+the journal on the first `mark` entries gives `c0`'s table; while a declaration is open this is so whatever its entry holds
+(the entry is either behind the mark or covered by the newest journal entry), and `rollback` will find that entry. -/
+structure JInv (c0 : Ctx) (st : St) : Prop where
+  mark : st.fmark = c0.fns.length
+  len : c0.fns.length ≤ st.ctx.fns.length
+  closed : st.child = none → revertFns st.fmark st.journal st.ctx.fns = c0.fns
+  opened : ∀ ch, st.child = some ch → ∃ i, findFn ch.name ch.arity st.ctx.fns = some i ∧
+    (∀ f, revertFns st.fmark st.journal (modAt (fun _ => f) i st.ctx.fns) = c0.fns) ∧
+    (∀ b, st.ctx.fbacked = some b → b.is ch.name ch.arity = true) ∧
+    (st.ctx.fbacked = none → c0.fns.length < st.ctx.fns.length)
+
+theorem jinv_init (c0 : Ctx) : JInv c0 (St.init c0) :=
+  ⟨rfl, Nat.le_refl _, (by intro _; simp [St.init, parsingBegin, revertFns]), (by intro ch h; cases h)⟩
+
+theorem jinv_step {H : Decl → Nat} {c0 : Ctx} {st st' : St} {e : Ev}
+    (hinv : JInv c0 st) (hstep : step H st e = .ok st') : JInv c0 st' := by
   unfold step at hstep
   cases hch : st.child with
   | some ch =>
     simp only [hch] at hstep
     have hopen := hinv.opened ch hch
     -- events that only move the depth counter
-    have keep : ∀ d : Nat, FInv c0 { st with child := some { ch with depth := d } } := by
+    have keep : ∀ d : Nat, JInv c0 { st with child := some { ch with depth := d } } := by
       intro d
-      refine ⟨hinv.len, (by intro h; cases h), ?_⟩
+      refine ⟨hinv.mark, hinv.len, (by intro h; cases h), ?_⟩
       intro ch' h'
       simp only [Option.some.injEq] at h'
       subst h'
@@ -678,35 +739,27 @@ theorem finv_step {H : Decl → Nat} {c0 : Ctx} {st st' : St} {e : Ev}
     | leave =>
       simp only at hstep
       split at hstep
-      · next hd =>
-        -- the declaration is complete: by hypothesis it is not a pre-existing one
-        have hnew : findFn ch.name ch.arity c0.fns = none := by
-          simp only [completesExisting, hch, hd, decide_true, Bool.true_and] at hno
-          cases h : findFn ch.name ch.arity c0.fns with
-          | none => rfl
-          | some k => simp [h] at hno
-        rcases hopen with ⟨_, hpre, _, _⟩ | ⟨i, b, hi, _⟩
-        · split at hstep
-          · next i hi =>
-            cases hstep
-            have hle : c0.fns.length ≤ i := by
-              apply findFn_take_none (l := st.ctx.fns) (m := c0.fns.length) _ hi
-              rw [hpre]; exact hnew
-            refine ⟨?_, ?_, ?_⟩
-            · simp only [length_modAt]; exact hinv.len
-            · intro _; simp only; rw [take_modAt_of_le _ _ _ _ hle]; exact hpre
-            · intro ch' h'; cases h'
-          · cases hstep
-        · rw [hnew] at hi; cases hi
+      · -- the declaration is complete: the entry gets its body
+        obtain ⟨i, hi, hall, _, _⟩ := hopen
+        simp only [hi] at hstep
+        cases hstep
+        obtain ⟨x, hx, _⟩ := findFn_is hi
+        refine ⟨hinv.mark, ?_, ?_, ?_⟩
+        · simp only [length_modAt]; exact hinv.len
+        · intro _
+          simp only
+          rw [modAt_eq_const _ _ _ x hx]
+          exact hall _
+        · intro ch' h'; cases h'
       · cases hstep; exact keep _
     | fnBegin n a fid => cases hstep
     | fail => cases hstep
   | none =>
     simp only [hch] at hstep
-    have hpre := hinv.closed hch
-    have same : ∀ c : Ctx, c.fns = st.ctx.fns → ∀ stk, FInv c0 ⟨c, stk, none⟩ := by
+    have hcl := hinv.closed hch
+    have same : ∀ c : Ctx, c.fns = st.ctx.fns → ∀ stk, JInv c0 ⟨c, stk, none, st.fmark, st.journal⟩ := by
       intro c hc stk
-      exact ⟨by simp only [hc]; exact hinv.len, by intro _; simp only [hc]; exact hpre, by intro ch' h'; cases h'⟩
+      exact ⟨hinv.mark, by simp only [hc]; exact hinv.len, by intro _; simp only [hc]; exact hcl, by intro ch' h'; cases h'⟩
     cases e with
     | reg n r =>
       simp only at hstep
@@ -753,91 +806,90 @@ theorem finv_step {H : Decl → Nat} {c0 : Ctx} {st st' : St} {e : Ev}
       split at hstep
       · cases hstep
       · cases hstep
-        unfold createOrReplace
-        cases hn0 : findFn n a c0.fns with
+        have hmark := hinv.mark
+        have hlen := hinv.len
+        unfold createOrReplace journalEntry
+        cases hfi : findFn n a st.ctx.fns with
         | none =>
-          cases hfi : findFn n a st.ctx.fns with
-          | none =>
-            simp only
-            refine ⟨?_, (by intro h; cases h), ?_⟩
-            · simp only [List.length_append, List.length_cons, List.length_nil]; have := hinv.len; omega
-            · intro ch' h'
-              simp only [Option.some.injEq] at h'
-              subst h'
-              refine Or.inl ⟨hn0, ?_, ?_, ?_⟩
-              · rw [List.take_append_of_le_length hinv.len]; exact hpre
-              · intro _; simp only [List.length_append, List.length_cons, List.length_nil]; have := hinv.len; omega
-              · intro b hb; cases hb
-          | some i =>
-            simp only
-            have hle : c0.fns.length ≤ i := by
-              apply findFn_take_none (l := st.ctx.fns) (m := c0.fns.length) _ hfi
-              rw [hpre]; exact hn0
-            obtain ⟨f, hf, hfis⟩ := findFn_is hfi
-            refine ⟨by simp only [length_modAt]; exact hinv.len, (by intro h; cases h), ?_⟩
-            intro ch' h'
+          -- a new entry is appended behind the mark: nothing is journalled
+          simp only [List.nil_append]
+          refine ⟨hmark, ?_, (by intro h; cases h), ?_⟩
+          · simp only [List.length_append, List.length_cons, List.length_nil]; omega
+          · intro ch' h'
             simp only [Option.some.injEq] at h'
             subst h'
-            refine Or.inl ⟨hn0, ?_, ?_, ?_⟩
-            · rw [take_modAt_of_le _ _ _ _ hle]; exact hpre
-            · intro hnone; simp only [hf] at hnone; cases hnone
-            · intro b hb
-              simp only [hf, Option.some.injEq] at hb
-              subst hb
-              simp only [Fn.is, Bool.and_eq_true, beq_iff_eq] at hfis
-              rw [hfis.1, hfis.2]; exact hn0
-        | some i0 =>
-          -- a pre-existing function is being redefined: its entry is replaced in place, the old functor is backed up
-          have hfi : findFn n a st.ctx.fns = some i0 := findFn_of_take (m := c0.fns.length) (by rw [hpre]; exact hn0)
-          simp only [hfi]
-          obtain ⟨f, hf, hfis⟩ := findFn_is hfi
-          refine ⟨by simp only [length_modAt]; exact hinv.len, (by intro h; cases h), ?_⟩
+            refine ⟨st.ctx.fns.length, ?_, ?_, ?_, ?_⟩
+            · simp only
+              rw [findFn_append, hfi]
+              simp [findFn, Fn.is]
+            · intro f
+              simp only
+              rw [revertFns_congr (fns := st.ctx.fns)]
+              · exact hcl
+              · rw [take_modAt_of_le _ _ _ _ (by omega), List.take_append_of_le_length (by omega)]
+            · intro b hb; cases hb
+            · intro _; simp only [List.length_append, List.length_cons, List.length_nil]; omega
+        | some i =>
+          -- an entry is replaced in place: the functor it held goes to `_backed` and to the journal
+          obtain ⟨old, hold, hfis⟩ := findFn_is hfi
+          simp only [hold, List.cons_append, List.nil_append]
+          refine ⟨hmark, by simp only [length_modAt]; exact hlen, (by intro h; cases h), ?_⟩
           intro ch' h'
           simp only [Option.some.injEq] at h'
           subst h'
-          refine Or.inr ⟨i0, f, hn0, hf, ?_, ?_⟩
-          · simp only
-            rw [modAt_modAt_const, modAt_id_of _ _ _ (by intro x hx; rw [hf] at hx; cases hx; rfl)]
-            exact hpre
-          · simp only
-            have hname : f.name = n ∧ f.arity = a := by
-              simpa [Fn.is] using hfis
-            rw [hname.1, hname.2]
-            exact findFn_modAt_same hfi (by simp [Fn.is])
+          refine ⟨i, ?_, ?_, ?_, ?_⟩
+          · exact findFn_modAt_same hfi (by simp [Fn.is])
+          · intro f
+            simp only
+            rw [modAt_modAt_const, revertFns_replace _ _ _ _ _ _ hold]
+            exact hcl
+          · intro b hb
+            simp only [Option.some.injEq] at hb
+            subst hb
+            exact hfis
+          · intro hb; cases hb
     | fail => cases hstep
 
-theorem finv_run {H : Decl → Nat} {c0 : Ctx} {st : St} (evs : List Ev)
-    (hno : redefinitionCompleted H c0 st evs = false) (hinv : FInv c0 st) : FInv c0 (runEvents H st evs).2 := by
+theorem jinv_run {H : Decl → Nat} {c0 : Ctx} {st : St} (evs : List Ev) (hinv : JInv c0 st) :
+    JInv c0 (runEvents H st evs).2 := by
   induction evs generalizing st with
   | nil => exact hinv
   | cons e es ih =>
     simp only [runEvents]
-    unfold redefinitionCompleted at hno
     cases hs : step H st e with
-    | ok st' =>
-      simp only [hs, Bool.or_eq_false_iff] at hno
-      exact ih hno.2 (finv_step hno.1 hinv hs)
+    | ok st' => exact ih (jinv_step hinv hs)
     | error err => exact hinv
 
-/-- what `rollback` does to the pre-existing entries under the invariant: it gives them back -/
-theorem finv_rollback {c0 : Ctx} {st : St} (hinv : FInv c0 st) (ch : Child) (hch : st.child = some ch) :
-    (rollbackCtx st.ctx).fns.take c0.fns.length = c0.fns := by
-  unfold rollbackCtx rollback
-  rcases hinv.opened ch hch with ⟨_, hpre, hlt, hbk⟩ | ⟨i, b, _, hb, hres, hfind⟩
-  · cases hb : st.ctx.fbacked with
+theorem rejectCtx_fns (H : Decl → Nat) (st : St) :
+    (rejectCtx H st).fns = revertFns st.fmark st.journal
+      (match st.child with | some _ => rollbackCtx st.ctx | none => st.ctx).fns := by
+  simp only [rejectCtx, parsingEnd, unwind]
+  cases st.child with
+  | none => simp only; rw [(unwindFrames_other st.stack st.ctx).2.2.2.2.1]
+  | some ch => simp only; rw [(unwindFrames_other st.stack (rollbackCtx st.ctx)).2.2.2.2.1]
+
+/-- the catch block of `FUNCTIONStatement::parse` (`rollback`) followed by `parsingRevert` gives back the table of the start -/
+theorem jinv_reject {H : Decl → Nat} {c0 : Ctx} {st : St} (hinv : JInv c0 st) : (rejectCtx H st).fns = c0.fns := by
+  rw [rejectCtx_fns]
+  cases hch : st.child with
+  | none => exact hinv.closed hch
+  | some ch =>
+    obtain ⟨i, hi, hall, hbk, hlt⟩ := hinv.opened ch hch
+    obtain ⟨x, hx, _⟩ := findFn_is hi
+    have hcur : revertFns st.fmark st.journal st.ctx.fns = c0.fns := by
+      have := hall x
+      rwa [modAt_id_of _ _ _ (by intro y hy; rw [hx] at hy; cases hy; rfl)] at this
+    simp only [rollbackCtx, rollback]
+    cases hb : st.ctx.fbacked with
     | none =>
       simp only
-      rw [take_dropLast_of_lt _ _ (hlt hb)]; exact hpre
+      rw [revertFns_congr (fns := st.ctx.fns)]
+      · exact hcur
+      · rw [hinv.mark]; exact take_dropLast_of_lt _ _ (hlt hb)
     | some b =>
-      simp only
-      cases hf : findFn b.name b.arity st.ctx.fns with
-      | none => simp only; exact hpre
-      | some j =>
-        simp only
-        have hle : c0.fns.length ≤ j := by
-          apply findFn_take_none (l := st.ctx.fns) (m := c0.fns.length) _ hf
-          rw [hpre]; exact hbk b hb
-        rw [take_modAt_of_le _ _ _ _ hle]; exact hpre
-  · simp only [hb, hfind]; exact hres
+      have hkey := hbk b hb
+      simp only [Fn.is, Bool.and_eq_true, beq_iff_eq] at hkey
+      simp only [hkey.1, hkey.2, hi]
+      exact hall b
 
 end BlocV.ParseCtx
